@@ -48,12 +48,18 @@ def main(argv=None):
 
     signal.signal(signal.SIGALRM, on_alarm)
     signal.alarm(int(float(os.environ.get("VERIF_WATCHDOG", core.WATCHDOG[args.tier])) * 1.5))
+    # (with VERIF_JOBS=1 the main process does the workers' share, too)
+    cpu_main = float(os.environ.get("VERIF_CPU_MAIN", core.CPU_MAIN[args.tier])) * (16 if core.NPROC <= 1 else 1)
+    core.cpu_guard(cpu_main)
     try:
         if args.replay:
             body = core.unjson(json.load(open(args.replay)))
             return mod.replay(ctx, body)
         return mod.check(ctx)
-    except core.Hang as e:
+    except (core.Hang, core.CpuLimit) as e:
+        core.cpu_guard(0)
+        if isinstance(e, core.CpuLimit):
+            e = core.Hang(f"the main process of the check used more than {cpu_main:.0f} CPU seconds")
         # non-termination is a property violation of its own (bounded harnesses always terminate)
         v = core.Violation(ctx.prop, "termination", "watchdog", dict(hang=str(e)), detail=str(e))
         cov = dict(evaluations=1, distinct_nontrivial=0, rule="aborted by the watchdog", samples=[dict(hang=str(e))],
@@ -64,6 +70,7 @@ def main(argv=None):
         print(f"HARNESS-ERROR: {e}")
         return 2
     finally:
+        core.cpu_guard(0)
         core.close_pool()
 
 
